@@ -345,6 +345,22 @@ func (self *Analyzer) letStatement(node pAst.LetStatement, isGlobal bool) ast.An
 		varType = ast.NewUnknownType()
 	}
 
+	if isGlobal {
+		// a global shares its name space with the functions of the module
+		if fn, exists := self.currentModule.getFunc(node.Ident.Ident()); exists {
+			self.error(
+				fmt.Sprintf("Duplicate definition of '%s': a function of this name exists", node.Ident.Ident()),
+				make([]string, 0),
+				node.Ident.Span(),
+			)
+			self.hint(
+				fmt.Sprintf("Function '%s' defined here", node.Ident.Ident()),
+				nil,
+				fn.FnType.(normalFunction).Ident.Span(),
+			)
+		}
+	}
+
 	// `force-add` is desired here, the variable should be shadowed
 	if prev := self.currentModule.addVar(node.Ident.Ident(), NewVar(varType, node.Ident.Span(), NormalVariableOriginKind, node.IsPub), true); prev != nil {
 		if isGlobal {
